@@ -101,6 +101,15 @@ fn rule_array(r: &mut Rng, key: &str, reset_first: bool, reset_elsewhere: bool) 
                 }
             } else {
                 t.insert("max_files".to_string(), Value::Integer(r.range(1, 50) as i64));
+                // arrays nested inside a rule table may carry reset markers too
+                if r.chance(1, 2) {
+                    let first = r.chance(1, 2);
+                    let later = r.chance(1, 10);
+                    let mut v: Vec<Value> = (0..r.below(3)).map(|_| Value::String((*r.pick(&[".rs", ".ts", ".md"])).to_string())).collect();
+                    if first { v.insert(0, Value::String(RESET.to_string())); }
+                    if later && !v.is_empty() { let at = r.range(1, v.len()); v.insert(at, Value::String(RESET.to_string())); }
+                    t.insert("allow_extensions".to_string(), Value::Array(v));
+                }
             }
         }
         Value::Table(t)
@@ -529,6 +538,55 @@ fn emit_cli_no_extends(sink: &mut Sink, r: &mut Rng) {
     });
 }
 
+/// A file without `extends` (or loaded with --no-extends) goes through the loader's single-file
+/// path: markers first in an array are stripped, markers elsewhere are rejected — at any
+/// nesting depth — and the result equals loading the hand-stripped file.
+fn emit_single_file(sink: &mut Sink, r: &mut Rng) {
+    if !sink.want() {
+        sink.skip();
+        return;
+    }
+    let wild = r.chance(1, 3);
+    let v = Value::Table(config_value(r, wild));
+    let text = toml::to_string(&v).unwrap_or_default();
+    let mut fs = MockFs::default();
+    fs.files.insert(PathBuf::from("/p/one.toml"), text);
+    let loaded = FileConfigLoader::with_fs(fs.clone()).load_from_path(Path::new("/p/one.toml"));
+    let loaded_ne = FileConfigLoader::with_fs(fs).load_from_path_without_extends(Path::new("/p/one.toml"));
+    let misplaced = spec_marker_misplaced(&v);
+    let mut stripped_fs = MockFs::default();
+    stripped_fs.files.insert(PathBuf::from("/p/one.toml"), toml::to_string(&spec_strip(v.clone())).unwrap_or_default());
+    let reference = FileConfigLoader::with_fs(stripped_fs).load_from_path(Path::new("/p/one.toml"));
+    let mut pred = "ok".to_string();
+    for (label, got) in [("load_from_path", &loaded), ("load_from_path_without_extends", &loaded_ne)] {
+        match (got, misplaced) {
+            (Ok(_), true) => pred = format!("FAIL {label}: a reset marker outside first position was accepted"),
+            (Ok(c), false) => {
+                let json = serde_json::to_string(&c.config).unwrap_or_default();
+                if json.contains("$reset") {
+                    pred = format!("FAIL {label}: a reset marker reached the effective configuration");
+                } else if let Ok(refc) = &reference {
+                    if refc.config != c.config {
+                        pred = format!("FAIL {label}: differs from loading the hand-stripped file");
+                    }
+                }
+            }
+            (Err(e), false) => {
+                // the stripped file must then be rejected as well (the value is not a configuration)
+                if reference.is_ok() {
+                    pred = format!("FAIL {label}: rejected ({e}) although the hand-stripped file loads");
+                }
+            }
+            (Err(_), true) => {}
+        }
+    }
+    let observed = match (&loaded, misplaced) {
+        (Err(_), true) => "err reset-position".to_string(),
+        _ => "-".to_string(),
+    };
+    sink.push(Case { request: format!("finish {}", enc_value(&v)), implementation: observed, pred, tag: format!("single-file/{}", if misplaced { "misplaced" } else if loaded.is_ok() { "ok" } else { "not-a-config" }) });
+}
+
 pub fn run(tier: Tier, seed: u64, out: &str) {
     let mut sink = Sink::create(out);
     let mut r = Rng::new(seed);
@@ -542,6 +600,7 @@ pub fn run(tier: Tier, seed: u64, out: &str) {
         if i % 2 == 0 {
             emit_merge(&mut sink, &mut r);
         }
+        emit_single_file(&mut sink, &mut r);
     }
     sink.extra.insert("trivial_tag_prefixes".into(), serde_json::json!([]));
     sink.finish(out);
